@@ -13,8 +13,11 @@ Init == l = 1
 \* The events are independent of each other, so a result the oracle does not allow does not stop the validation:
 \* it is reported as <<"BAD", line>> and the check turns every BAD line into a violation (all of them in one pass).
 Judge(ok) == IF ok THEN TRUE ELSE PrintT(<<"BAD", l>>)
+\* "skipped": the driver gave up on the rest of a shard after several crashed / hung cases; not judged (the check
+\* counts them and never reports a clean result while there are any)
 EvName == /\ IsEv("Name")
-          /\ Judge(Allowed(AbsClass(Ev.cells, Ev.cut), Ev.res, Ev.name, Ev.end))
+          /\ IF Ev.res = "skipped" THEN PrintT(<<"SKIP", l>>)
+             ELSE Judge(Allowed(AbsClass(Ev.cells, Ev.cut), Ev.res, Ev.name, Ev.end))
 EvReset == IsEv("Reset")
 Next == EvName \/ EvReset
 Spec == Init /\ [][Next]_vars
